@@ -147,3 +147,162 @@ pub fn fmt_seq<T: std::fmt::Debug>(s: &[T]) -> String {
         format!("{:?}…(len {})", &s[..48], s.len())
     }
 }
+
+/// ITERATOR-PROTOCOL BATTERY.  `mk()` yields a fresh iterator; `row` turns an item into a comparable
+/// string.  The reference expansion is what plain `next()` calls deliver (the caller checks THAT
+/// against its own model); every other way of consuming the iterator that `std::iter::Iterator`
+/// offers — and that an implementation may override (`nth`, `fold`, `try_fold`, `count`, `last`,
+/// `size_hint`, `advance_by` through `skip`, ...) — must deliver the same items, also when it
+/// starts after a prefix of plain `next()` calls.  Returns the failures (first few).
+pub fn iter_battery<I, T>(mk: &dyn Fn() -> I, row: &dyn Fn(T) -> String, salt: u64) -> Vec<String>
+where
+    I: Iterator<Item = T>,
+{
+    let mut fails: Vec<String> = Vec::new();
+    let mut want: Vec<String> = Vec::new();
+    {
+        let mut it = mk();
+        // plain next() calls, one hint check per step: lower <= remaining <= upper
+        #[allow(clippy::while_let_on_iterator)]
+        while let Some(x) = it.next() {
+            want.push(row(x));
+            if want.len() > 200_000 {
+                return fails; // not a workload for this battery
+            }
+        }
+        if let Some(x) = it.next() {
+            // std does not promise fused behaviour in general; every iterator of this crate is a
+            // chain / flat-map over slices, for which a further item after None means a lost position
+            fails.push(format!("next() after the end yielded another item {}", row(x)));
+        }
+    }
+    let n = want.len();
+    let mut pres: Vec<usize> = vec![0, 1, 2, n / 2, n.saturating_sub(1), n, (salt as usize) % (n + 1), (salt as usize / 7) % (n + 1)];
+    pres.sort();
+    pres.dedup();
+    pres.retain(|p| *p <= n);
+    let after = |pre: usize| -> I {
+        let mut it = mk();
+        for _ in 0..pre {
+            it.next();
+        }
+        it
+    };
+    for &pre in &pres {
+        let rest = &want[pre..];
+        let (lo, hi) = after(pre).size_hint();
+        if lo > rest.len() || hi.map_or(false, |h| h < rest.len()) {
+            fails.push(format!("after {} next(): size_hint() = ({}, {:?}) but {} items remain", pre, lo, hi, rest.len()));
+        }
+        let got: Vec<String> = after(pre).fold(Vec::new(), |mut v, x| {
+            v.push(row(x));
+            v
+        });
+        if got != rest {
+            fails.push(format!("after {} next(): fold() delivers {} items {:?}, expected {} items {:?}", pre, got.len(), head(&got), rest.len(), head(rest)));
+        }
+        let mut got: Vec<String> = Vec::new();
+        after(pre).for_each(|x| got.push(row(x)));
+        if got != rest {
+            fails.push(format!("after {} next(): for_each() delivers {:?}, expected {:?}", pre, head(&got), head(rest)));
+        }
+        let got: Vec<String> = after(pre).map(|x| row(x)).collect();
+        if got != rest {
+            fails.push(format!("after {} next(): map().collect() delivers {:?}, expected {:?}", pre, head(&got), head(rest)));
+        }
+        let c = after(pre).count();
+        if c != rest.len() {
+            fails.push(format!("after {} next(): count() = {}, expected {}", pre, c, rest.len()));
+        }
+        let l = after(pre).last().map(|x| row(x));
+        if l.as_ref() != rest.last() {
+            fails.push(format!("after {} next(): last() = {:?}, expected {:?}", pre, l, rest.last()));
+        }
+        // try_fold based consumers
+        let mut seen = 0usize;
+        let all = after(pre).all(|_| {
+            seen += 1;
+            true
+        });
+        if !all || seen != rest.len() {
+            fails.push(format!("after {} next(): all() visited {} items, expected {}", pre, seen, rest.len()));
+        }
+        for k in [0usize, 1, 2, 3, rest.len() / 2, rest.len().saturating_sub(1), rest.len(), rest.len() + 1] {
+            let mut it = after(pre);
+            let got = it.nth(k).map(|x| row(x));
+            if got.as_ref() != rest.get(k) {
+                fails.push(format!("after {} next(): nth({}) = {:?}, expected {:?}", pre, k, got, rest.get(k)));
+            } else if got.is_some() {
+                let tail: Vec<String> = it.map(|x| row(x)).collect();
+                if tail != rest[k + 1..] {
+                    fails.push(format!("after {} next() and nth({}): the rest is {:?}, expected {:?}", pre, k, head(&tail), head(&rest[k + 1..])));
+                }
+            }
+            let got: Vec<String> = after(pre).skip(k).map(|x| row(x)).collect();
+            let exp: &[String] = if k <= rest.len() { &rest[k..] } else { &[] };
+            if got != exp {
+                fails.push(format!("after {} next(): skip({}) delivers {:?}, expected {:?}", pre, k, head(&got), head(exp)));
+            }
+            let mut it = after(pre);
+            let first: Vec<String> = it.by_ref().take(k).map(|x| row(x)).collect();
+            let tail: Vec<String> = it.map(|x| row(x)).collect();
+            let cut = k.min(rest.len());
+            if first != rest[..cut] || tail != rest[cut..] {
+                fails.push(format!("after {} next(): by_ref().take({}) + rest delivers {:?} + {:?}, expected {:?} + {:?}", pre, k, head(&first), head(&tail), head(&rest[..cut]), head(&rest[cut..])));
+            }
+            if k < rest.len() {
+                // find / position stop in the middle and must leave the iterator right behind the hit
+                let mut it = after(pre);
+                let mut i = 0usize;
+                let hit = it.find(|_| {
+                    i += 1;
+                    i == k + 1
+                });
+                let tail: Vec<String> = it.map(|x| row(x)).collect();
+                if hit.map(|x| row(x)).as_ref() != rest.get(k) || tail != rest[k + 1..] {
+                    fails.push(format!("after {} next(): find() of item #{} and the rest disagree with the plain expansion", pre, k));
+                }
+            }
+        }
+        for step in [2usize, 3] {
+            let got: Vec<String> = after(pre).step_by(step).map(|x| row(x)).collect();
+            let exp: Vec<String> = rest.iter().step_by(step).cloned().collect();
+            if got != exp {
+                fails.push(format!("after {} next(): step_by({}) delivers {:?}, expected {:?}", pre, step, head(&got), head(&exp)));
+            }
+        }
+        {
+            let mut it = after(pre).peekable();
+            let p = it.peek().map(|_| ());
+            let got: Vec<String> = it.map(|x| row(x)).collect();
+            if got != rest || p.is_some() != !rest.is_empty() {
+                fails.push(format!("after {} next(): peekable().peek() then collect delivers {:?}, expected {:?}", pre, head(&got), head(rest)));
+            }
+        }
+        {
+            // a chained / zipped consumer (advances through try_fold / next of the inner iterator)
+            let got: Vec<String> = after(pre).chain(std::iter::empty()).map(|x| row(x)).collect();
+            if got != rest {
+                fails.push(format!("after {} next(): chain(empty()) delivers {:?}, expected {:?}", pre, head(&got), head(rest)));
+            }
+            let got: Vec<String> = after(pre).zip(0..).map(|(x, _)| row(x)).collect();
+            if got != rest {
+                fails.push(format!("after {} next(): zip(0..) delivers {:?}, expected {:?}", pre, head(&got), head(rest)));
+            }
+            let got: Vec<String> = after(pre).enumerate().filter(|(i, _)| i % 2 == 1).map(|(_, x)| row(x)).collect();
+            let exp: Vec<String> = rest.iter().skip(1).step_by(2).cloned().collect();
+            if got != exp {
+                fails.push(format!("after {} next(): enumerate().filter(odd) delivers {:?}, expected {:?}", pre, head(&got), head(&exp)));
+            }
+        }
+        if fails.len() > 6 {
+            break;
+        }
+    }
+    fails.truncate(6);
+    fails
+}
+
+fn head(v: &[String]) -> Vec<&str> {
+    v.iter().take(6).map(|s| s.as_str()).collect()
+}
